@@ -68,7 +68,9 @@ class Engine(EngineBase, AccessMixin, StmtMixin, CallMixin):
         if L.decreases:
             m0 = as_int(self.ev(ast.parse(L.decreases, mode='eval').body, p, fc)[0].v)
         paths = self.lemma_block(L.node.body, p, fc, L, m0)
-        self.covers = sum(1 for q in paths if feasible(q, None, 5000))
+        self.covers = sum(1 for q in paths if feasible(q, None, 1000))
+        for q in paths:
+            self.oblige(q, 'lemma:%s/canary' % L.name, z3.BoolVal(False), 'canary', assume_after=False)
         return self.obls
 
     def lemma_block(self, stmts, p, fc, L, m0):
@@ -185,6 +187,8 @@ class Engine(EngineBase, AccessMixin, StmtMixin, CallMixin):
         p.env = {n: env[n] for n in env}
         sfc = self.contract_fc(c, None)
         sfc.ghost_ok = True
+        self.eval_lets(c, p, sfc)
+        env = dict(p.env)
         for r in c.requires:
             p.assume(self.spec_bool(r, p, sfc))
         old = (dict(p.env), dict(p.heap))
@@ -196,6 +200,8 @@ class Engine(EngineBase, AccessMixin, StmtMixin, CallMixin):
         code_env = {n: env[n] for n in real_params}
         ghost_env = {n: env[n] for n in env if n not in real_params}
         p.env = dict(code_env)
+        p.ghost = dict(p.ghost)
+        p.ghost['genv'] = {n: env[n] for n in env if n not in real_params}
         outs = self.ex_block(fnode.body, p, fc)
         self.covers = 0
         for (k, q, v) in outs:
@@ -210,8 +216,9 @@ class Engine(EngineBase, AccessMixin, StmtMixin, CallMixin):
         return self.obls
 
     def check_normal_exit(self, c, q, v, env, old, conds):
-        if feasible(q, None, 5000):
+        if feasible(q, None, 1000):
             self.covers += 1
+        self.oblige(q, c.key + '/canary', z3.BoolVal(False), 'canary', assume_after=False)
         sfc = self.contract_fc(c, old)
         sfc.ghost_ok = True
         for (ecls, wt) in conds:
@@ -236,7 +243,7 @@ class Engine(EngineBase, AccessMixin, StmtMixin, CallMixin):
             self.check_frame(c, q2, old, sfc)
 
     def check_raise_exit(self, c, q, exc, env, old, conds):
-        if feasible(q, None, 5000):
+        if feasible(q, None, 1000):
             self.covers += 1
         allowed = [(ecls, wt) for (ecls, wt) in conds if self.exc_subclass(exc.cls, ecls)]
         name = '%s/noraise:%s:%s' % (c.key, exc.cls, exc.origin[:60])
@@ -333,10 +340,25 @@ def solve(assumptions, goal, timeout_ms, want_model=True):
     dt = time.time() - t0
     if r == z3.unsat:
         return 'proved', 'z3-%s' % z3.get_version_string(), dt, None, ''
+    reason = None
     if r == z3.sat:
-        return 'failed', 'z3-%s' % z3.get_version_string(), dt, s.model(), ''
+        m = s.model()
+        bad = None
+        for a in list(assumptions) + [z3.Not(goal)]:
+            try:
+                v = m.eval(a, model_completion=True)
+            except z3.Z3Exception:
+                continue
+            if z3.is_false(v):
+                bad = a
+                break
+        if bad is None:
+            return 'failed', 'z3-%s' % z3.get_version_string(), dt, m, ''
+        # z3's sequence solver occasionally answers sat with a model that violates an assertion
+        # (uninterpreted functions over Seq): such an answer is not believed
+        reason = 'sat with a model violating an assertion'
     # unknown: try cvc5 on the exported problem
-    reason = s.reason_unknown()
+    reason = reason or s.reason_unknown()
     t1 = time.time()
     res = run_cvc5(s, timeout_ms)
     dt2 = time.time() - t1
@@ -352,7 +374,9 @@ def run_cvc5(solver, timeout_ms):
         smt = solver.to_smt2()
     except Exception as e:
         return 'export-error'
-    smt = '(set-logic ALL)\n' + smt
+    # z3 prints its internal split of seq.nth (in-bounds / out-of-bounds part); both are seq.nth for cvc5,
+    # whose seq.nth is likewise an unspecified function of (s, i) outside the bounds
+    smt = '(set-logic ALL)\n' + smt.replace('seq.nth_i', 'seq.nth').replace('seq.nth_u', 'seq.nth')
     fd, path = tempfile.mkstemp(suffix='.smt2', prefix='pyvc_')
     try:
         with os.fdopen(fd, 'w') as f:
